@@ -44,6 +44,7 @@ func mkDoc(name, head, field, tail, key string, vars map[string]interface{}, pre
 	}
 	// query twin: replace the keyword, pad with blanks to keep every column
 	q := strings.Replace(head, "subscription", "query       ", 1)
+	q = strings.Replace(q, " on Subscription ", " on Query        ", 1)
 	d.QText = q + field + tail
 	return d
 }
@@ -56,6 +57,11 @@ var docs = []*docVar{
 	// variables whose coerced form differs from the caller's: an enum whose
 	// internal values are not its names, supplied and defaulted
 	mkDoc("enumvar", "subscription S($m: Mode) { ", "a: s(m: $m)", " }", "a", map[string]interface{}{"m": "FAST"}, "<7>"),
+	// the root field reached through a fragment spread, an inline fragment and
+	// behind directives (the subscribe step collects the root selection itself)
+	mkDoc("frag", "subscription { ...F } fragment F on Subscription { ", "s", " }", "s", nil, ""),
+	mkDoc("inline", "subscription { ... on Subscription { ", "s", " } }", "s", nil, ""),
+	mkDoc("dirs", "subscription S($t: Boolean = true, $f: Boolean = false) { ", "s @include(if: $t) @skip(if: $f)", " }", "s", nil, ""),
 	mkDoc("enumdef", "subscription S($m: Mode = SLOW) { ", "a: s(m: $m)", " }", "a", nil, "<slow!>"),
 }
 
